@@ -171,6 +171,54 @@ theorem C28_alloc_result (hS : S.Lawful) (r : Run S) (g : Ghost) (hI : Inv r g) 
   rw [hbase] at a2
   exact ⟨o, ho, hn, ho23, a1, a2, a3, hpw.1⟩
 
+/-! ## the host-function layer -/
+
+theorem hostMalloc_val {r : Run S} {n p : Nat} (h : (hostMalloc r n).2 = .val p) :
+    (r.step (.alloc n)).2 = .ptr p ∧ (hostMalloc r n).1 = (r.step (.alloc n)).1 := by
+  unfold hostMalloc at *
+  rcases hs : r.step (.alloc n) with ⟨r', o⟩
+  rw [hs] at h
+  cases o with
+  | ptr q => simp only at h; injection h with h; subst h; exact ⟨rfl, rfl⟩
+  | ok => simp only at h; cases h
+  | err e => simp only at h; cases h
+  | wrote b => simp only at h; cases h
+  | grew b => simp only at h; cases h
+
+/-- **Host malloc** (`ext_allocator_malloc_version_1`): whenever the host function returns a pointer
+    to the guest (instead of trapping), the pointer satisfies everything `C28_alloc_result` says, and
+    the state is the one `Allocate` produced. -/
+theorem C28_host_malloc_result (hS : S.Lawful) (r : Run S) (g : Ghost) (hI : Inv r g) (n p : Nat)
+    (h : (hostMalloc r n).2 = .val p) :
+    (∃ g', Inv (hostMalloc r n).1 g') ∧
+    ∃ o, orderFromSize n = some o ∧ n ≤ osize o ∧ o < 23 ∧
+      p % 8 = 0 ∧ r.s.base + 8 ≤ p ∧ p + osize o ≤ (hostMalloc r n).1.m.size ∧
+      ∀ e ∈ r.live, NoOverlap (p, o) e := by
+  obtain ⟨h1, h2⟩ := hostMalloc_val h
+  rw [h2]
+  exact ⟨inv_alloc hS hI n, C28_alloc_result hS r g hI n p h1⟩
+
+/-- the host functions trap exactly when the allocator returns an error, and change the state
+    exactly as `Allocate` / `Deallocate` do (so poisoning, `C28_double_free`, ... carry over) -/
+theorem C28_host_traps (r : Run S) (x : Nat) :
+    ((hostMalloc r x).1 = (r.step (.alloc x)).1 ∧
+      ∀ e, (hostMalloc r x).2 = .panic e ↔ (r.step (.alloc x)).2 = .err e) ∧
+    ((hostFree r x).1 = (r.step (.free x)).1 ∧
+      ∀ e, (hostFree r x).2 = .panic e ↔ (r.step (.free x)).2 = .err e) := by
+  constructor
+  · unfold hostMalloc
+    rcases hr : allocate r.s r.m x with ⟨s', m', e' | q⟩
+    · simp only [Run.step, hr, true_and]
+      intro e; constructor <;> (intro h; injection h with h; rw [h])
+    · simp only [Run.step, hr, true_and]
+      intro e; constructor <;> (intro h; cases h)
+  · unfold hostFree
+    rcases hr : deallocate r.s r.m x with ⟨s', m', e' | q⟩
+    · simp only [Run.step, hr, true_and]
+      intro e; constructor <;> (intro h; injection h with h; rw [h])
+    · simp only [Run.step, hr, true_and]
+      intro e; constructor <;> (intro h; cases h)
+
 /-! ## frame: Allocate and Deallocate never write into a live allocation -/
 
 /-- **Frame.**  In a reachable state, an `alloc` or a permitted `free` leaves every byte of every
